@@ -85,6 +85,7 @@ let parse_uop (t : string list) : uop =
   | ["resolve"; r; "lit"; f; a; port; h] -> UResolve (zi r, RLit (mk_addr f a), zi port, zi h)
   | ["resolve"; r; "host"; id; port; h] -> UResolve (zi r, RHost (zi id), zi port, zi h)
   | ["rslv_cancel"; r] -> URslvCancel (zi r)
+  | ["rslv_destroy"; r] -> URslvDestroy (zi r)
   | ["pcap_on"] -> UPcapOn
   | ["set_next_port"; n] -> USetNextPort (zi n)
   | ["http_new"; srv; node; port; keep] -> UHttpNew (zi srv, zi node, zi port, b1 keep)
